@@ -288,9 +288,16 @@ def m_round(I, args, kwargs):
     nd = args[1] if len(args) > 1 else kwargs.get("ndigits")
     if isinstance(v, (SInt, SBool)) and nd is None:
         return v
+    if isinstance(v, SReal) and isinstance(nd, int) and not isinstance(nd, bool):
+        scale = z3.RealVal(10) ** nd if nd >= 0 else None
+        if scale is None:
+            raise Undecided("round with negative ndigits")
+        scale = z3.RealVal(10**nd)
+        r = m_round(I, [SReal(v.z * scale)], {})
+        return SReal(zreal(r) / scale)
     if isinstance(v, SReal):
         if nd is not None:
-            raise Undecided("round with ndigits on symbolic")
+            raise Undecided("round with symbolic ndigits")
         f = z3.ToInt(v.z)  # floor
         d = v.z - z3.ToReal(f)
         half = z3.RealVal(1) / 2
